@@ -65,6 +65,7 @@ func (c *Config) Proxy(closing chan bool, cc io.ReadWriter, url *url.URL) error 
 	if err != nil {
 		return fmt.Errorf("connecting h2 to %v: %w", url, err)
 	}
+	defer sc.Close()
 	if err := forwardPreface(sc, cc); err != nil {
 		return fmt.Errorf("initializing h2 with %v: %w", url, err)
 	}
@@ -100,16 +101,26 @@ func (c *Config) Proxy(closing chan bool, cc io.ReadWriter, url *url.URL) error 
 	}
 	sToC.processors = cToS.processors
 
+	// When either direction ends the session is over: closing both connections
+	// unblocks the other direction.
+	stop := func() {
+		sc.Close()
+		if c, ok := cc.(io.Closer); ok {
+			c.Close()
+		}
+	}
 	var wg sync.WaitGroup
 	wg.Add(2)
 	go func() { // Forwards frames from client to server.
 		defer wg.Done()
+		defer stop()
 		if err := cToS.relayFrames(closing); err != nil {
 			log.Errorf("relaying frame from client to %v: %v", url, err)
 		}
 	}()
 	go func() { // Forwards frames from server to client.
 		defer wg.Done()
+		defer stop()
 		if err := sToC.relayFrames(closing); err != nil {
 			log.Errorf("relaying frame from %v to client: %v", url, err)
 		}
